@@ -91,12 +91,15 @@
      model and is left to the harness (Exec.entry_chain).
    * The closure hypotheses: C11_or_insert_with*_lawful assume the closure does
      not panic, C11_and_modify_lawful that it does not panic and computes a pure
-     function g of the old value.  Panicking closures are covered for safety only
-     (Safety3.or_insert_with_spec, and_modify_spec: C04).
-   * "every entry method chain": the theorems cover entry(k) followed by ONE
-     method (and and_modify returns the entry so that a chain can continue from
-     the stated e'); arbitrary chains are exercised by the harness
-     (Exec.entry_chain).
+     function g of the old value.  CLOSED in the AUDIT CLOSURE section at the end
+     of this file: C11_or_insert_with_vacant_exact / _closure_panics (the stored
+     value is the closure's result in the state at the call; a panicking closure
+     inserts nothing and the VacantEntry's key is destroyed once by unwinding), C11_and_modify_stateful (any closure, panicking included).
+   * "every entry method chain": the theorems of the first part cover entry(k)
+     followed by ONE method.  CLOSED in the AUDIT CLOSURE section:
+     C11_and_modify_chain_or_insert (chains of any length of and_modify, then
+     or_insert) and C11_chain0_spec ... C11_chain11_spec (result-level
+     specification of every chain of Exec.entry_chain).
    * the equivalence with the direct operation is stated through the list
      machine (l_insert, l_remove); that Map::insert/remove compute l_insert /
      l_remove is Lawful3.insert_lawful / remove_lawful (C01, C03).
@@ -450,6 +453,982 @@ Example C11_example_get :
          match e with Occupied i => j <- occ_get i ;; ret (Some j) | Vacant _ => ret None end)
           (w_of m3) with
   | Ok r w' => r = None /\ self w' = m3
+  | _ => False
+  end.
+Proof. vm_compute. repeat split; reflexivity. Qed.
+
+(* ========================================================================
+   AUDIT CLOSURE (Proofs/MoreEntry.v)
+
+   The theorems below close the findings of the independent audit of C11:
+   (1) the value stored by or_insert_with / or_insert_with_key / or_default IS
+       the value the closure returned, called once in the callback state the
+       scan left;  (2) "touch no other entry" as a statement about every other
+       class;  (3) VacantEntry::key / into_key, through the interpreter's
+       chains;  (4) result-level specification of EVERY chain of
+       Exec.entry_chain (returned tokens, new content, log);  (5) and_modify
+       with a stateful / panicking closure and chains of and_modify;
+       (6) concrete runs of and_modify, or_insert_with, occ_insert, occ_remove,
+       vac_insert.
+
+   ADDITIONAL VOCABULARY
+     scan_cb E k l s        the callback state after comparing the supplied key
+                            k with the stored pairs of l, in order, starting
+                            from s (fold of `snd (eqK E s stored k)`).
+     scan_pref ck k l       the pairs the scan actually compares: up to and
+                            including the first pair of k's class; all of l when
+                            there is none.
+     entry_cb E ck k l s    the callback state when entry(k) returns: scan_cb
+                            over scan_pref, then (present key only) the Drop
+                            of the supplied key object.
+     lookup ck l c          the dictionary view: the stored (key object, value)
+                            of class c, None when absent (Proofs/Spec.v).
+     and_modify_all e fs    e.and_modify(f1).and_modify(f2)... (a Fixpoint of
+                            Proofs/MoreEntry.v over the list fs).
+     logged w w' evs        log w' = log w ++ evs.
+   ======================================================================== *)
+Require Import Proofs.MoreEntry.
+From Coq Require Import Permutation.
+
+(* ---------------------------------------------------------------------- *)
+(* Finding 1.  "running their closure exactly once ... insert": the value   *)
+(* appended is the closure's own result.                                    *)
+(* ---------------------------------------------------------------------- *)
+
+(* entry(k) with the callback state it leaves behind — the state the closure
+   of the next method is called in.  Hypotheses: a lawful environment, a
+   well-formed container. *)
+Theorem C11_entry_of_cb :
+  forall (K V Q T : Type) (E : env K V Q T) (ck : K -> N) (cq : Q -> N) (HL : Lawful E ck cq)
+         (k : K) (w : world K V T),
+    WF (self w) ->
+    wp (entry_of E k)
+       (fun (e : @entry K) (w' : world K V T) =>
+          self w' = self w /\ cb w' = entry_cb E ck k (Spec.elems (self w)) (cb w) /\
+          match find_idx ck (ck k) (Spec.elems (self w)) with
+          | Some i => e = Occupied i /\ logged w w' (ev_drops (idK E k))
+          | None => e = Vacant k /\ log w' = log w
+          end)
+       (fun _ : world K V T => False) w.
+Proof. exact (fun K V Q T E ck cq HL => entry_of_cb E ck cq HL). Qed.
+Print Assumptions C11_entry_of_cb.
+
+(* The statement proposed by the audit.  Hypotheses of
+   C11_or_insert_with_lawful plus: k is absent, the map is not full.  The v
+   that is appended is f's result in the state `scan_cb ...` (the caller's
+   state after the scan's comparisons, none of which matched). *)
+Theorem C11_or_insert_with_vacant_tied :
+  forall (K V Q T : Type) (E : env K V Q T) (debug : bool) (ck : K -> N) (cq : Q -> N)
+         (HL : Lawful E ck cq) (k : K) (f : T -> option V * T) (w : world K V T),
+    WF (self w) ->
+    (forall s : T, exists (v : V) (s' : T), f s = (Some v, s')) ->
+    find_idx ck (ck k) (Spec.elems (self w)) = None ->
+    len (self w) < cap (self w) ->
+    wp (e <- entry_of E k ;; or_insert_with E debug e f)
+       (fun (i : nat) (w' : world K V T) =>
+          exists (v : V) (s' : T),
+            f (scan_cb E k (Spec.elems (self w)) (cb w)) = (Some v, s') /\
+            Spec.elems (self w') = Spec.elems (self w) ++ [(k, v)] /\
+            i = length (Spec.elems (self w)) /\
+            WF (self w') /\ cap (self w') = cap (self w) /\ logged w w' [EvCall 2])
+       (fun _ : world K V T => False) w.
+Proof. exact (fun K V Q T E debug ck cq HL => or_insert_with_vacant_tied E debug ck cq HL). Qed.
+Print Assumptions C11_or_insert_with_vacant_tied.
+
+(* Stronger: the closure only has to return normally in THAT state (it may do
+   anything elsewhere); the full-map outcome is included: the value the closure
+   just made is the one destroyed (with k) by the unwinding. *)
+Theorem C11_or_insert_with_vacant_exact :
+  forall (K V Q T : Type) (E : env K V Q T) (debug : bool) (ck : K -> N) (cq : Q -> N)
+         (HL : Lawful E ck cq) (k : K) (f : T -> option V * T) (v : V) (s' : T) (w : world K V T),
+    WF (self w) ->
+    find_idx ck (ck k) (Spec.elems (self w)) = None ->
+    f (scan_cb E k (Spec.elems (self w)) (cb w)) = (Some v, s') ->
+    wp (e <- entry_of E k ;; or_insert_with E debug e f)
+       (fun (i : nat) (w' : world K V T) =>
+          WF (self w') /\ cap (self w') = cap (self w) /\
+          Spec.elems (self w') = Spec.elems (self w) ++ [(k, v)] /\
+          i = length (Spec.elems (self w)) /\
+          logged w w' [EvCall 2] /\ len (self w) < cap (self w))
+       (fun w' : world K V T =>
+          self w' = self w /\
+          logged w w' ([EvCall 2] ++ ev_drops (idK E k ++ idV E v)) /\
+          len (self w) = cap (self w)) w.
+Proof. exact (fun K V Q T E debug ck cq HL => or_insert_with_vacant_exact E debug ck cq HL). Qed.
+Print Assumptions C11_or_insert_with_vacant_exact.
+
+(* the closure panics in that state: it was called once, nothing is inserted,
+   and the key object k — owned by the VacantEntry, which is alive while the
+   closure runs — is destroyed exactly once by the unwinding (one ev_drops
+   (idK E k) after the one EvCall 2; the callback state goes through dropK) *)
+Theorem C11_or_insert_with_vacant_closure_panics :
+  forall (K V Q T : Type) (E : env K V Q T) (debug : bool) (ck : K -> N) (cq : Q -> N)
+         (HL : Lawful E ck cq) (k : K) (f : T -> option V * T) (s' : T) (w : world K V T),
+    WF (self w) ->
+    find_idx ck (ck k) (Spec.elems (self w)) = None ->
+    f (scan_cb E k (Spec.elems (self w)) (cb w)) = (None, s') ->
+    wp (e <- entry_of E k ;; or_insert_with E debug e f)
+       (fun (_ : nat) (_ : world K V T) => False)
+       (fun w' : world K V T =>
+          self w' = self w /\ logged w w' ([EvCall 2] ++ ev_drops (idK E k)) /\
+          cb w' = snd (dropK E s' k)) w.
+Proof. exact (fun K V Q T E debug ck cq HL => or_insert_with_vacant_closure_panics E debug ck cq HL). Qed.
+Print Assumptions C11_or_insert_with_vacant_closure_panics.
+
+Theorem C11_or_insert_with_key_vacant_closure_panics :
+  forall (K V Q T : Type) (E : env K V Q T) (debug : bool) (ck : K -> N) (cq : Q -> N)
+         (HL : Lawful E ck cq) (k : K) (f : K -> T -> option V * T) (s' : T) (w : world K V T),
+    WF (self w) ->
+    find_idx ck (ck k) (Spec.elems (self w)) = None ->
+    f k (scan_cb E k (Spec.elems (self w)) (cb w)) = (None, s') ->
+    wp (e <- entry_of E k ;; or_insert_with_key E debug e f)
+       (fun (_ : nat) (_ : world K V T) => False)
+       (fun w' : world K V T =>
+          self w' = self w /\ logged w w' ([EvCall 2] ++ ev_drops (idK E k)) /\
+          cb w' = snd (dropK E s' k)) w.
+Proof. exact (fun K V Q T E debug ck cq HL => or_insert_with_key_vacant_closure_panics E debug ck cq HL). Qed.
+Print Assumptions C11_or_insert_with_key_vacant_closure_panics.
+
+(* or_insert_with_key: the closure receives the supplied key k *)
+Theorem C11_or_insert_with_key_vacant_tied :
+  forall (K V Q T : Type) (E : env K V Q T) (debug : bool) (ck : K -> N) (cq : Q -> N)
+         (HL : Lawful E ck cq) (k : K) (f : K -> T -> option V * T) (w : world K V T),
+    WF (self w) ->
+    (forall s : T, exists (v : V) (s' : T), f k s = (Some v, s')) ->
+    find_idx ck (ck k) (Spec.elems (self w)) = None ->
+    len (self w) < cap (self w) ->
+    wp (e <- entry_of E k ;; or_insert_with_key E debug e f)
+       (fun (i : nat) (w' : world K V T) =>
+          exists (v : V) (s' : T),
+            f k (scan_cb E k (Spec.elems (self w)) (cb w)) = (Some v, s') /\
+            Spec.elems (self w') = Spec.elems (self w) ++ [(k, v)] /\
+            i = length (Spec.elems (self w)) /\
+            WF (self w') /\ cap (self w') = cap (self w) /\ logged w w' [EvCall 2])
+       (fun _ : world K V T => False) w.
+Proof. exact (fun K V Q T E debug ck cq HL => or_insert_with_key_vacant_tied E debug ck cq HL). Qed.
+Print Assumptions C11_or_insert_with_key_vacant_tied.
+
+Theorem C11_or_insert_with_key_vacant_exact :
+  forall (K V Q T : Type) (E : env K V Q T) (debug : bool) (ck : K -> N) (cq : Q -> N)
+         (HL : Lawful E ck cq) (k : K) (f : K -> T -> option V * T) (v : V) (s' : T) (w : world K V T),
+    WF (self w) ->
+    find_idx ck (ck k) (Spec.elems (self w)) = None ->
+    f k (scan_cb E k (Spec.elems (self w)) (cb w)) = (Some v, s') ->
+    wp (e <- entry_of E k ;; or_insert_with_key E debug e f)
+       (fun (i : nat) (w' : world K V T) =>
+          WF (self w') /\ cap (self w') = cap (self w) /\
+          Spec.elems (self w') = Spec.elems (self w) ++ [(k, v)] /\
+          i = length (Spec.elems (self w)) /\
+          logged w w' [EvCall 2] /\ len (self w) < cap (self w))
+       (fun w' : world K V T =>
+          self w' = self w /\
+          logged w w' ([EvCall 2] ++ ev_drops (idK E k ++ idV E v)) /\
+          len (self w) = cap (self w)) w.
+Proof. exact (fun K V Q T E debug ck cq HL => or_insert_with_key_vacant_exact E debug ck cq HL). Qed.
+Print Assumptions C11_or_insert_with_key_vacant_exact.
+
+(* "only then": on a PRESENT key the closure is not called, whatever it is (no
+   hypothesis on f): no EvCall in the log, the container is untouched, the
+   supplied key object is destroyed, the slot found is returned *)
+Theorem C11_or_insert_with_occupied :
+  forall (K V Q T : Type) (E : env K V Q T) (debug : bool) (ck : K -> N) (cq : Q -> N)
+         (HL : Lawful E ck cq) (k : K) (f : T -> option V * T) (j : nat) (w : world K V T),
+    WF (self w) ->
+    find_idx ck (ck k) (Spec.elems (self w)) = Some j ->
+    wp (e <- entry_of E k ;; or_insert_with E debug e f)
+       (fun (i : nat) (w' : world K V T) =>
+          i = j /\ self w' = self w /\ logged w w' (ev_drops (idK E k)) /\
+          exists (k0 : K) (v0 : V),
+            nth_error (Spec.elems (self w')) j = Some (k0, v0) /\ ck k0 = ck k)
+       (fun _ : world K V T => False) w.
+Proof. exact (fun K V Q T E debug ck cq HL => or_insert_with_occupied E debug ck cq HL). Qed.
+Print Assumptions C11_or_insert_with_occupied.
+
+Theorem C11_or_insert_with_key_occupied :
+  forall (K V Q T : Type) (E : env K V Q T) (debug : bool) (ck : K -> N) (cq : Q -> N)
+         (HL : Lawful E ck cq) (k : K) (f : K -> T -> option V * T) (j : nat) (w : world K V T),
+    WF (self w) ->
+    find_idx ck (ck k) (Spec.elems (self w)) = Some j ->
+    wp (e <- entry_of E k ;; or_insert_with_key E debug e f)
+       (fun (i : nat) (w' : world K V T) =>
+          i = j /\ self w' = self w /\ logged w w' (ev_drops (idK E k)) /\
+          exists (k0 : K) (v0 : V),
+            nth_error (Spec.elems (self w')) j = Some (k0, v0) /\ ck k0 = ck k)
+       (fun _ : world K V T => False) w.
+Proof. exact (fun K V Q T E debug ck cq HL => or_insert_with_key_occupied E debug ck cq HL). Qed.
+Print Assumptions C11_or_insert_with_key_occupied.
+(* or_default = or_insert_with(Default::default): the instance with the
+   interpreter's Default closure (Exec.mk_default) is C11_chain3_spec below. *)
+
+(* ---------------------------------------------------------------------- *)
+(* Finding 2.  "touch no other entry".  remove / remove_entry are a         *)
+(* swap_remove (the last pair moves into the hole): every OTHER class still *)
+(* maps to the same (key object, value); the removed class maps to nothing. *)
+(* Uniq ck l = the keys of l have pairwise different classes (the invariant *)
+(* of every reachable map, C01/C02).                                        *)
+(* ---------------------------------------------------------------------- *)
+Theorem C11_lookup_swap_remove_other :
+  forall (K V : Type) (ck : K -> N) (l : list (K * V)) (i : nat) (p : K * V) (c : N),
+    Uniq ck l -> nth_error l i = Some p -> c <> ck (fst p) ->
+    lookup ck (swap_remove l i) c = lookup ck l c.
+Proof. exact (fun K V => @lookup_swap_remove_other K V). Qed.
+Print Assumptions C11_lookup_swap_remove_other.
+
+Theorem C11_lookup_swap_remove_self :
+  forall (K V : Type) (ck : K -> N) (l : list (K * V)) (i : nat) (p : K * V),
+    Uniq ck l -> nth_error l i = Some p -> lookup ck (swap_remove l i) (ck (fst p)) = None.
+Proof. exact (fun K V => @lookup_swap_remove_self K V). Qed.
+Print Assumptions C11_lookup_swap_remove_self.
+
+Theorem C11_occ_remove_entry_others :
+  forall (K V T : Type) (debug : bool) (ck : K -> N) (i : nat) (w : world K V T),
+    WF (self w) -> Uniq ck (Spec.elems (self w)) -> i < len (self w) ->
+    wp (occ_remove_entry debug i)
+       (fun (p : K * V) (w' : world K V T) =>
+          nth_error (Spec.elems (self w)) i = Some p /\ log w' = log w /\
+          WF (self w') /\ Uniq ck (Spec.elems (self w')) /\
+          Permutation (Spec.elems (self w)) (p :: Spec.elems (self w')) /\
+          lookup ck (Spec.elems (self w')) (ck (fst p)) = None /\
+          forall c : N, c <> ck (fst p) ->
+            lookup ck (Spec.elems (self w')) c = lookup ck (Spec.elems (self w)) c)
+       (fun _ : world K V T => False) w.
+Proof. exact (fun K V T debug ck => @occ_remove_entry_others K V T debug ck). Qed.
+Print Assumptions C11_occ_remove_entry_others.
+
+Theorem C11_occ_remove_others :
+  forall (K V Q T : Type) (E : env K V Q T) (debug : bool) (ck : K -> N) (cq : Q -> N)
+         (HL : Lawful E ck cq) (i : nat) (w : world K V T),
+    WF (self w) -> Uniq ck (Spec.elems (self w)) -> i < len (self w) ->
+    wp (occ_remove E debug i)
+       (fun (v : V) (w' : world K V T) =>
+          exists k0 : K,
+            nth_error (Spec.elems (self w)) i = Some (k0, v) /\
+            logged w w' (ev_drops (idK E k0)) /\
+            WF (self w') /\ Uniq ck (Spec.elems (self w')) /\
+            Permutation (Spec.elems (self w)) ((k0, v) :: Spec.elems (self w')) /\
+            lookup ck (Spec.elems (self w')) (ck k0) = None /\
+            forall c : N, c <> ck k0 ->
+              lookup ck (Spec.elems (self w')) c = lookup ck (Spec.elems (self w)) c)
+       (fun _ : world K V T => False) w.
+Proof. exact (fun K V Q T E debug ck cq HL => occ_remove_others E debug ck cq HL). Qed.
+Print Assumptions C11_occ_remove_others.
+
+(* through entry(k): entry(k) on a present key, then OccupiedEntry::remove *)
+Theorem C11_entry_remove_others :
+  forall (K V Q T : Type) (E : env K V Q T) (debug : bool) (ck : K -> N) (cq : Q -> N)
+         (HL : Lawful E ck cq) (k : K) (j : nat) (w : world K V T),
+    WF (self w) -> Uniq ck (Spec.elems (self w)) ->
+    find_idx ck (ck k) (Spec.elems (self w)) = Some j ->
+    wp (e <- entry_of E k ;; match e with Occupied i => occ_remove E debug i | Vacant _ => panic end)
+       (fun (v : V) (w' : world K V T) =>
+          exists k0 : K,
+            nth_error (Spec.elems (self w)) j = Some (k0, v) /\ ck k0 = ck k /\
+            logged w w' (ev_drops (idK E k) ++ ev_drops (idK E k0)) /\
+            lookup ck (Spec.elems (self w')) (ck k) = None /\
+            forall c : N, c <> ck k ->
+              lookup ck (Spec.elems (self w')) c = lookup ck (Spec.elems (self w)) c)
+       (fun _ : world K V T => False) w.
+Proof. exact (fun K V Q T E debug ck cq HL => entry_remove_others E debug ck cq HL). Qed.
+Print Assumptions C11_entry_remove_others.
+
+(* OccupiedEntry::insert: same key objects in the same slots, only the value
+   of slot i changes, every other class untouched *)
+Theorem C11_occ_insert_others :
+  forall (K V T : Type) (ck : K -> N) (i : nat) (v : V) (w : world K V T),
+    WF (self w) ->
+    forall (k0 : K) (v0 : V),
+      nth_error (Spec.elems (self w)) i = Some (k0, v0) ->
+      wp (occ_insert i v)
+         (fun (r : V) (w' : world K V T) =>
+            r = v0 /\ log w' = log w /\ WF (self w') /\
+            nth_error (Spec.elems (self w')) i = Some (k0, v) /\
+            List.map fst (Spec.elems (self w')) = List.map fst (Spec.elems (self w)) /\
+            forall c : N, c <> ck k0 ->
+              lookup ck (Spec.elems (self w')) c = lookup ck (Spec.elems (self w)) c)
+         (fun _ : world K V T => False) w.
+Proof. exact (fun K V T ck => @occ_insert_others K V T ck). Qed.
+Print Assumptions C11_occ_insert_others.
+
+Theorem C11_vac_insert_others :
+  forall (K V Q T : Type) (E : env K V Q T) (debug : bool) (ck : K -> N) (cq : Q -> N)
+         (HL : Lawful E ck cq) (k : K) (v : V) (w : world K V T),
+    WF (self w) ->
+    find_idx ck (ck k) (Spec.elems (self w)) = None -> len (self w) < cap (self w) ->
+    wp (vac_insert E debug k v)
+       (fun (i : nat) (w' : world K V T) =>
+          i = length (Spec.elems (self w)) /\ log w' = log w /\ WF (self w') /\
+          lookup ck (Spec.elems (self w')) (ck k) = Some (k, v) /\
+          forall c : N, c <> ck k ->
+            lookup ck (Spec.elems (self w')) c = lookup ck (Spec.elems (self w)) c)
+       (fun _ : world K V T => False) w.
+Proof. exact (fun K V Q T E debug ck cq HL => vac_insert_others E debug ck cq HL). Qed.
+Print Assumptions C11_vac_insert_others.
+
+(* or_insert / or_insert_with / or_insert_with_key, on EVERY outcome (present,
+   absent, full; for the closures: ANY closure, it may panic — no hypothesis on
+   f): no other class changes; a panic leaves the container as it was *)
+Theorem C11_or_insert_others :
+  forall (K V Q T : Type) (E : env K V Q T) (debug : bool) (ck : K -> N) (cq : Q -> N)
+         (HL : Lawful E ck cq) (k : K) (v : V) (w : world K V T),
+    WF (self w) ->
+    wp (e <- entry_of E k ;; or_insert E debug e v)
+       (fun (_ : nat) (w' : world K V T) =>
+          forall c : N, c <> ck k ->
+            lookup ck (Spec.elems (self w')) c = lookup ck (Spec.elems (self w)) c)
+       (fun w' : world K V T => self w' = self w) w.
+Proof. exact (fun K V Q T E debug ck cq HL => or_insert_others E debug ck cq HL). Qed.
+Print Assumptions C11_or_insert_others.
+
+Theorem C11_or_insert_with_others :
+  forall (K V Q T : Type) (E : env K V Q T) (debug : bool) (ck : K -> N) (cq : Q -> N)
+         (HL : Lawful E ck cq) (k : K) (f : T -> option V * T) (w : world K V T),
+    WF (self w) ->
+    wp (e <- entry_of E k ;; or_insert_with E debug e f)
+       (fun (_ : nat) (w' : world K V T) =>
+          forall c : N, c <> ck k ->
+            lookup ck (Spec.elems (self w')) c = lookup ck (Spec.elems (self w)) c)
+       (fun w' : world K V T => self w' = self w) w.
+Proof. exact (fun K V Q T E debug ck cq HL => or_insert_with_others E debug ck cq HL). Qed.
+Print Assumptions C11_or_insert_with_others.
+
+Theorem C11_or_insert_with_key_others :
+  forall (K V Q T : Type) (E : env K V Q T) (debug : bool) (ck : K -> N) (cq : Q -> N)
+         (HL : Lawful E ck cq) (k : K) (f : K -> T -> option V * T) (w : world K V T),
+    WF (self w) ->
+    wp (e <- entry_of E k ;; or_insert_with_key E debug e f)
+       (fun (_ : nat) (w' : world K V T) =>
+          forall c : N, c <> ck k ->
+            lookup ck (Spec.elems (self w')) c = lookup ck (Spec.elems (self w)) c)
+       (fun w' : world K V T => self w' = self w) w.
+Proof. exact (fun K V Q T E debug ck cq HL => or_insert_with_key_others E debug ck cq HL). Qed.
+Print Assumptions C11_or_insert_with_key_others.
+
+(* and_modify with ANY closure (stateful, may panic), on both outcomes: the key
+   objects are the same objects in the same slots, no other class changes *)
+Theorem C11_and_modify_others :
+  forall (K V Q T : Type) (E : env K V Q T) (ck : K -> N) (cq : Q -> N) (HL : Lawful E ck cq)
+         (k : K) (f : @modf_t V T) (w : world K V T),
+    WF (self w) ->
+    wp (e <- entry_of E k ;; and_modify e f)
+       (fun (_ : @entry K) (w' : world K V T) =>
+          List.map fst (Spec.elems (self w')) = List.map fst (Spec.elems (self w)) /\
+          forall c : N, c <> ck k ->
+            lookup ck (Spec.elems (self w')) c = lookup ck (Spec.elems (self w)) c)
+       (fun w' : world K V T =>
+          List.map fst (Spec.elems (self w')) = List.map fst (Spec.elems (self w)) /\
+          forall c : N, c <> ck k ->
+            lookup ck (Spec.elems (self w')) c = lookup ck (Spec.elems (self w)) c) w.
+Proof. exact (fun K V Q T E ck cq HL => and_modify_others E ck cq HL). Qed.
+Print Assumptions C11_and_modify_others.
+
+(* ---------------------------------------------------------------------- *)
+(* Finding 5.  and_modify with a closure that may read and change the       *)
+(* callback state and may panic (modf_t = T -> V -> (bool * V) * T; the     *)
+(* bool says "panics"; the V is what it left in the slot).                  *)
+(* ---------------------------------------------------------------------- *)
+Theorem C11_call_modf_stateful :
+  forall (K V T : Type) (f : @modf_t V T) (i : nat) (w : world K V T),
+    WF (self w) ->
+    forall (k0 : K) (v0 : V),
+      nth_error (Spec.elems (self w)) i = Some (k0, v0) ->
+      wp (call_modf f i)
+         (fun (_ : unit) (w' : world K V T) =>
+            fst (fst (f (cb w) v0)) = false /\
+            WF (self w') /\ cap (self w') = cap (self w) /\
+            Spec.elems (self w') = upd (Spec.elems (self w)) i (k0, snd (fst (f (cb w) v0))) /\
+            logged w w' [EvCall 3] /\ cb w' = snd (f (cb w) v0))
+         (fun w' : world K V T =>
+            fst (fst (f (cb w) v0)) = true /\
+            WF (self w') /\ cap (self w') = cap (self w) /\
+            Spec.elems (self w') = upd (Spec.elems (self w)) i (k0, snd (fst (f (cb w) v0))) /\
+            logged w w' [EvCall 3] /\ cb w' = snd (f (cb w) v0)) w.
+Proof. exact (fun K V T => @call_modf_stateful K V T). Qed.
+Print Assumptions C11_call_modf_stateful.
+
+(* entry(k).and_modify(f), any f.  Present at slot j holding (k0, v0): f runs
+   exactly once (one EvCall 3), on v0, in the callback state entry(k) left;
+   whatever value it leaves — ALSO WHEN IT THEN PANICS (second postcondition) —
+   is the value now stored under the same key object k0.  Absent: f does not
+   run, nothing changes. *)
+Theorem C11_and_modify_stateful :
+  forall (K V Q T : Type) (E : env K V Q T) (ck : K -> N) (cq : Q -> N) (HL : Lawful E ck cq)
+         (k : K) (f : @modf_t V T) (w : world K V T),
+    WF (self w) ->
+    wp (e <- entry_of E k ;; and_modify e f)
+       (fun (e' : @entry K) (w' : world K V T) =>
+          match find_idx ck (ck k) (Spec.elems (self w)) with
+          | Some j =>
+              e' = Occupied j /\
+              exists (k0 : K) (v0 : V),
+                nth_error (Spec.elems (self w)) j = Some (k0, v0) /\
+                let r := f (entry_cb E ck k (Spec.elems (self w)) (cb w)) v0 in
+                fst (fst r) = false /\
+                WF (self w') /\ cap (self w') = cap (self w) /\
+                Spec.elems (self w') = upd (Spec.elems (self w)) j (k0, snd (fst r)) /\
+                cb w' = snd r /\
+                logged w w' (ev_drops (idK E k) ++ [EvCall 3])
+          | None => e' = Vacant k /\ self w' = self w /\ log w' = log w
+          end)
+       (fun w' : world K V T =>
+          exists (j : nat) (k0 : K) (v0 : V),
+            find_idx ck (ck k) (Spec.elems (self w)) = Some j /\
+            nth_error (Spec.elems (self w)) j = Some (k0, v0) /\
+            let r := f (entry_cb E ck k (Spec.elems (self w)) (cb w)) v0 in
+            fst (fst r) = true /\
+            WF (self w') /\ cap (self w') = cap (self w) /\
+            Spec.elems (self w') = upd (Spec.elems (self w)) j (k0, snd (fst r)) /\
+            cb w' = snd r /\
+            logged w w' (ev_drops (idK E k) ++ [EvCall 3])) w.
+Proof. exact (fun K V Q T E ck cq HL => and_modify_stateful E ck cq HL). Qed.
+Print Assumptions C11_and_modify_stateful.
+
+(* chains of and_modify (by induction over the list of modifiers): each fi is
+   a non-panicking closure computing the pure function gi of the old value *)
+Theorem C11_and_modify_all_occ :
+  forall (K V T : Type) (fs : list (@modf_t V T)) (gs : list (V -> V)),
+    Forall2 (fun (f : @modf_t V T) (g : V -> V) => forall (s : T) (v : V), fst (f s v) = (false, g v)) fs gs ->
+    forall (j : nat) (w : world K V T),
+      WF (self w) ->
+      forall (k0 : K) (v0 : V),
+        nth_error (Spec.elems (self w)) j = Some (k0, v0) ->
+        wp (and_modify_all (Occupied j) fs)
+           (fun (e' : @entry K) (w' : world K V T) =>
+              e' = Occupied j /\ WF (self w') /\ cap (self w') = cap (self w) /\
+              Spec.elems (self w') =
+                upd (Spec.elems (self w)) j (k0, fold_left (fun (a : V) (g : V -> V) => g a) gs v0) /\
+              logged w w' (repeat (EvCall 3) (length fs)))
+           (fun _ : world K V T => False) w.
+Proof. exact (fun K V T => @and_modify_all_occ K V T). Qed.
+Print Assumptions C11_and_modify_all_occ.
+
+(* entry(k).and_modify(f1)....and_modify(fn).or_insert(v): present -> the
+   value becomes gn(...(g1 v0)) under the same key object, each fi ran once, k
+   and the unused v are destroyed; absent -> no fi runs, (k, v) is appended;
+   panic only for "absent and full" *)
+Theorem C11_and_modify_chain_or_insert :
+  forall (K V Q T : Type) (E : env K V Q T) (debug : bool) (ck : K -> N) (cq : Q -> N)
+         (HL : Lawful E ck cq) (k : K) (fs : list (@modf_t V T)) (gs : list (V -> V)) (v : V)
+         (w : world K V T),
+    WF (self w) ->
+    Forall2 (fun (f : @modf_t V T) (g : V -> V) => forall (s : T) (v : V), fst (f s v) = (false, g v)) fs gs ->
+    wp (e <- entry_of E k ;; e' <- and_modify_all e fs ;; or_insert E debug e' v)
+       (fun (i : nat) (w' : world K V T) =>
+          WF (self w') /\ cap (self w') = cap (self w) /\
+          match find_idx ck (ck k) (Spec.elems (self w)) with
+          | Some j =>
+              i = j /\
+              exists (k0 : K) (v0 : V),
+                nth_error (Spec.elems (self w)) j = Some (k0, v0) /\
+                Spec.elems (self w') =
+                  upd (Spec.elems (self w)) j (k0, fold_left (fun (a : V) (g : V -> V) => g a) gs v0) /\
+                logged w w' (ev_drops (idK E k) ++ repeat (EvCall 3) (length fs) ++ ev_drops (idV E v))
+          | None =>
+              i = length (Spec.elems (self w)) /\
+              Spec.elems (self w') = Spec.elems (self w) ++ [(k, v)] /\ log w' = log w
+          end)
+       (fun w' : world K V T =>
+          self w' = self w /\ logged w w' (ev_drops (idK E k ++ idV E v)) /\
+          find_idx ck (ck k) (Spec.elems (self w)) = None /\ len (self w) = cap (self w)) w.
+Proof. exact (fun K V Q T E debug ck cq HL => and_modify_chain_or_insert E debug ck cq HL). Qed.
+Print Assumptions C11_and_modify_chain_or_insert.
+
+(* ---------------------------------------------------------------------- *)
+(* Findings 3 and 4.  "every entry method chain": result-level              *)
+(* specification of ALL the chains the interpreter (Exec.entry_chain, the    *)
+(* program the harness mirrors) can run: for each chain number and for a     *)
+(* present key (stored at slot j as (k0, v0)) / an absent key / an absent    *)
+(* key in a full map: the returned tokens (tag, slot, rendered object), the  *)
+(* new content, the log.                                                     *)
+(*   Hypotheses: `honest sc` — the script makes every == truthful and no     *)
+(*   callback panic (so env_map sc is Lawful: FmtSerde.env_map_lawful, and    *)
+(*   the scripted closures mk_val / mk_default / modf_add return normally);   *)
+(*   WF (self w).  debug is arbitrary.  r_key k = [kid k; kcls k],            *)
+(*   r_val v = [vid v; vdat v], nn = N.of_nat.  EvDrop (kid k) = the object   *)
+(*   k was destroyed.                                                         *)
+(* Finding 3 (VacantEntry::key / into_key, no model function of their own)   *)
+(* is the `None` branch of chains 5, 6 (key(): a borrow — the supplied key    *)
+(* object is rendered, then destroyed exactly once when the entry is dropped, *)
+(* container untouched) and of chains 7, 10 (into_key(): the caller keeps     *)
+(* the supplied key object — rendered, NOT destroyed: log unchanged);        *)
+(* the `Some` branch of chain 5 is Entry::key on a present key: the STORED    *)
+(* key object k0 is rendered and the supplied one is destroyed.              *)
+(* ---------------------------------------------------------------------- *)
+
+(* chain 0: entry(k).or_insert(v) *)
+Theorem C11_chain0_spec :
+  forall (debug : bool) (sc : script), honest sc ->
+  forall (k : key) (v : vobj) (w : world key vobj cstate),
+    WF (self w) ->
+    wp (entry_chain debug sc k 0 v)
+       (fun (r : list N) (w' : world key vobj cstate) =>
+          WF (self w') /\ cap (self w') = cap (self w) /\
+          match find_idx kcls (kcls k) (Spec.elems (self w)) with
+          | Some j =>
+              exists (k0 : key) (v0 : vobj),
+                nth_error (Spec.elems (self w)) j = Some (k0, v0) /\
+                r = [0%N; nn j] ++ r_val v0 /\ self w' = self w /\
+                logged w w' [EvDrop (kid k); EvDrop (vid v)]
+          | None =>
+              r = [0%N; nn (len (self w))] ++ r_val v /\
+              Spec.elems (self w') = Spec.elems (self w) ++ [(k, v)] /\ log w' = log w /\
+              len (self w) < cap (self w)
+          end)
+       (fun w' : world key vobj cstate =>
+          self w' = self w /\ logged w w' [EvDrop (kid k); EvDrop (vid v)] /\
+          find_idx kcls (kcls k) (Spec.elems (self w)) = None /\ len (self w) = cap (self w)) w.
+Proof. exact chain0_spec. Qed.
+Print Assumptions C11_chain0_spec.
+
+(* chain 1: entry(k).or_insert_with(|| v) — present: no EvCall; absent: one
+   EvCall 2 and the closure's value v stored; full: v and k destroyed after
+   the one call *)
+Theorem C11_chain1_spec :
+  forall (debug : bool) (sc : script), honest sc ->
+  forall (k : key) (v : vobj) (w : world key vobj cstate),
+    WF (self w) ->
+    wp (entry_chain debug sc k 1 v)
+       (fun (r : list N) (w' : world key vobj cstate) =>
+          WF (self w') /\ cap (self w') = cap (self w) /\
+          match find_idx kcls (kcls k) (Spec.elems (self w)) with
+          | Some j =>
+              exists (k0 : key) (v0 : vobj),
+                nth_error (Spec.elems (self w)) j = Some (k0, v0) /\
+                r = [0%N; nn j] ++ r_val v0 /\ self w' = self w /\ logged w w' [EvDrop (kid k)]
+          | None =>
+              r = [0%N; nn (len (self w))] ++ r_val v /\
+              Spec.elems (self w') = Spec.elems (self w) ++ [(k, v)] /\ logged w w' [EvCall 2] /\
+              len (self w) < cap (self w)
+          end)
+       (fun w' : world key vobj cstate =>
+          self w' = self w /\ logged w w' [EvCall 2; EvDrop (kid k); EvDrop (vid v)] /\
+          find_idx kcls (kcls k) (Spec.elems (self w)) = None /\ len (self w) = cap (self w)) w.
+Proof. exact chain1_spec. Qed.
+Print Assumptions C11_chain1_spec.
+
+(* chain 2: entry(k).or_insert_with_key(|_| v) *)
+Theorem C11_chain2_spec :
+  forall (debug : bool) (sc : script), honest sc ->
+  forall (k : key) (v : vobj) (w : world key vobj cstate),
+    WF (self w) ->
+    wp (entry_chain debug sc k 2 v)
+       (fun (r : list N) (w' : world key vobj cstate) =>
+          WF (self w') /\ cap (self w') = cap (self w) /\
+          match find_idx kcls (kcls k) (Spec.elems (self w)) with
+          | Some j =>
+              exists (k0 : key) (v0 : vobj),
+                nth_error (Spec.elems (self w)) j = Some (k0, v0) /\
+                r = [0%N; nn j] ++ r_val v0 /\ self w' = self w /\ logged w w' [EvDrop (kid k)]
+          | None =>
+              r = [0%N; nn (len (self w))] ++ r_val v /\
+              Spec.elems (self w') = Spec.elems (self w) ++ [(k, v)] /\ logged w w' [EvCall 2] /\
+              len (self w) < cap (self w)
+          end)
+       (fun w' : world key vobj cstate =>
+          self w' = self w /\ logged w w' [EvCall 2; EvDrop (kid k); EvDrop (vid v)] /\
+          find_idx kcls (kcls k) (Spec.elems (self w)) = None /\ len (self w) = cap (self w)) w.
+Proof. exact chain2_spec. Qed.
+Print Assumptions C11_chain2_spec.
+
+(* chain 3: entry(k).or_default() — the instance of or_insert_with with the
+   Default closure: the value made is a FRESH object (identity = the next free
+   one, next_id (cb w): comparisons allocate nothing) with payload 0 *)
+Theorem C11_chain3_spec :
+  forall (debug : bool) (sc : script), honest sc ->
+  forall (k : key) (v : vobj) (w : world key vobj cstate),
+    WF (self w) ->
+    let dv := {| vid := next_id (cb w); vdat := 0 |} in
+    wp (entry_chain debug sc k 3 v)
+       (fun (r : list N) (w' : world key vobj cstate) =>
+          WF (self w') /\ cap (self w') = cap (self w) /\
+          match find_idx kcls (kcls k) (Spec.elems (self w)) with
+          | Some j =>
+              exists (k0 : key) (v0 : vobj),
+                nth_error (Spec.elems (self w)) j = Some (k0, v0) /\
+                r = [0%N; nn j] ++ r_val v0 /\ self w' = self w /\ logged w w' [EvDrop (kid k)]
+          | None =>
+              r = [0%N; nn (len (self w))] ++ r_val dv /\
+              Spec.elems (self w') = Spec.elems (self w) ++ [(k, dv)] /\ logged w w' [EvCall 2] /\
+              len (self w) < cap (self w)
+          end)
+       (fun w' : world key vobj cstate =>
+          self w' = self w /\ logged w w' [EvCall 2; EvDrop (kid k); EvDrop (vid dv)] /\
+          find_idx kcls (kcls k) (Spec.elems (self w)) = None /\ len (self w) = cap (self w)) w.
+Proof. exact chain3_spec. Qed.
+Print Assumptions C11_chain3_spec.
+
+(* chain 4: entry(k).and_modify(|x| x.dat += 100).or_insert(v) *)
+Theorem C11_chain4_spec :
+  forall (debug : bool) (sc : script), honest sc ->
+  forall (k : key) (v : vobj) (w : world key vobj cstate),
+    WF (self w) ->
+    wp (entry_chain debug sc k 4 v)
+       (fun (r : list N) (w' : world key vobj cstate) =>
+          WF (self w') /\ cap (self w') = cap (self w) /\
+          match find_idx kcls (kcls k) (Spec.elems (self w)) with
+          | Some j =>
+              exists (k0 : key) (v0 : vobj),
+                nth_error (Spec.elems (self w)) j = Some (k0, v0) /\
+                let v1 := {| vid := vid v0; vdat := vdat v0 + 100 |} in
+                r = [0%N; nn j] ++ r_val v1 /\
+                Spec.elems (self w') = upd (Spec.elems (self w)) j (k0, v1) /\
+                logged w w' [EvDrop (kid k); EvCall 3; EvDrop (vid v)]
+          | None =>
+              r = [0%N; nn (len (self w))] ++ r_val v /\
+              Spec.elems (self w') = Spec.elems (self w) ++ [(k, v)] /\ log w' = log w /\
+              len (self w) < cap (self w)
+          end)
+       (fun w' : world key vobj cstate =>
+          self w' = self w /\ logged w w' [EvDrop (kid k); EvDrop (vid v)] /\
+          find_idx kcls (kcls k) (Spec.elems (self w)) = None /\ len (self w) = cap (self w)) w.
+Proof. exact chain4_spec. Qed.
+Print Assumptions C11_chain4_spec.
+
+(* chain 5: Entry::key() *)
+Theorem C11_chain5_spec :
+  forall (debug : bool) (sc : script), honest sc ->
+  forall (k : key) (v : vobj) (w : world key vobj cstate),
+    WF (self w) ->
+    wp (entry_chain debug sc k 5 v)
+       (fun (r : list N) (w' : world key vobj cstate) =>
+          self w' = self w /\ logged w w' [EvDrop (kid k)] /\
+          match find_idx kcls (kcls k) (Spec.elems (self w)) with
+          | Some j =>
+              exists (k0 : key) (v0 : vobj),
+                nth_error (Spec.elems (self w)) j = Some (k0, v0) /\ r = [0%N; nn j] ++ r_key k0
+          | None => r = 1%N :: r_key k
+          end)
+       (fun _ : world key vobj cstate => False) w.
+Proof. exact chain5_spec. Qed.
+Print Assumptions C11_chain5_spec.
+
+(* chain 6: OccupiedEntry::get() / VacantEntry::key() *)
+Theorem C11_chain6_spec :
+  forall (debug : bool) (sc : script), honest sc ->
+  forall (k : key) (v : vobj) (w : world key vobj cstate),
+    WF (self w) ->
+    wp (entry_chain debug sc k 6 v)
+       (fun (r : list N) (w' : world key vobj cstate) =>
+          self w' = self w /\ logged w w' [EvDrop (kid k)] /\
+          match find_idx kcls (kcls k) (Spec.elems (self w)) with
+          | Some j =>
+              exists (k0 : key) (v0 : vobj),
+                nth_error (Spec.elems (self w)) j = Some (k0, v0) /\ r = [0%N; nn j] ++ r_val v0
+          | None => r = 1%N :: r_key k
+          end)
+       (fun _ : world key vobj cstate => False) w.
+Proof. exact chain6_spec. Qed.
+Print Assumptions C11_chain6_spec.
+
+(* chain 7: OccupiedEntry::get_mut() and a write of v's payload through it /
+   VacantEntry::into_key() *)
+Theorem C11_chain7_spec :
+  forall (debug : bool) (sc : script), honest sc ->
+  forall (k : key) (v : vobj) (w : world key vobj cstate),
+    WF (self w) ->
+    wp (entry_chain debug sc k 7 v)
+       (fun (r : list N) (w' : world key vobj cstate) =>
+          WF (self w') /\ cap (self w') = cap (self w) /\
+          match find_idx kcls (kcls k) (Spec.elems (self w)) with
+          | Some j =>
+              exists (k0 : key) (v0 : vobj),
+                nth_error (Spec.elems (self w)) j = Some (k0, v0) /\
+                r = [0%N; nn j] ++ r_val v0 /\
+                Spec.elems (self w') =
+                  upd (Spec.elems (self w)) j (k0, {| vid := vid v0; vdat := vdat v |}) /\
+                logged w w' [EvDrop (kid k)]
+          | None => r = 1%N :: r_key k /\ self w' = self w /\ log w' = log w
+          end)
+       (fun _ : world key vobj cstate => False) w.
+Proof. exact chain7_spec. Qed.
+Print Assumptions C11_chain7_spec.
+
+(* chain 8: OccupiedEntry::insert(v) (returns the old value, keeps the stored
+   key object) / VacantEntry::insert(v) *)
+Theorem C11_chain8_spec :
+  forall (debug : bool) (sc : script), honest sc ->
+  forall (k : key) (v : vobj) (w : world key vobj cstate),
+    WF (self w) ->
+    wp (entry_chain debug sc k 8 v)
+       (fun (r : list N) (w' : world key vobj cstate) =>
+          WF (self w') /\ cap (self w') = cap (self w) /\
+          match find_idx kcls (kcls k) (Spec.elems (self w)) with
+          | Some j =>
+              exists (k0 : key) (v0 : vobj),
+                nth_error (Spec.elems (self w)) j = Some (k0, v0) /\
+                r = 0%N :: r_val v0 /\
+                Spec.elems (self w') = upd (Spec.elems (self w)) j (k0, v) /\
+                logged w w' [EvDrop (kid k)]
+          | None =>
+              r = [1%N; nn (len (self w))] ++ r_val v /\
+              Spec.elems (self w') = Spec.elems (self w) ++ [(k, v)] /\ log w' = log w /\
+              len (self w) < cap (self w)
+          end)
+       (fun w' : world key vobj cstate =>
+          self w' = self w /\ logged w w' [EvDrop (kid k); EvDrop (vid v)] /\
+          find_idx kcls (kcls k) (Spec.elems (self w)) = None /\ len (self w) = cap (self w)) w.
+Proof. exact chain8_spec. Qed.
+Print Assumptions C11_chain8_spec.
+
+(* chain 9: OccupiedEntry::remove() (value returned, stored key object k0
+   destroyed, swap_remove) / a vacant entry that is just dropped *)
+Theorem C11_chain9_spec :
+  forall (debug : bool) (sc : script), honest sc ->
+  forall (k : key) (v : vobj) (w : world key vobj cstate),
+    WF (self w) ->
+    wp (entry_chain debug sc k 9 v)
+       (fun (r : list N) (w' : world key vobj cstate) =>
+          WF (self w') /\ cap (self w') = cap (self w) /\
+          match find_idx kcls (kcls k) (Spec.elems (self w)) with
+          | Some j =>
+              exists (k0 : key) (v0 : vobj),
+                nth_error (Spec.elems (self w)) j = Some (k0, v0) /\
+                r = 0%N :: r_val v0 /\
+                Spec.elems (self w') = swap_remove (Spec.elems (self w)) j /\
+                logged w w' [EvDrop (kid k); EvDrop (kid k0)]
+          | None => r = [1%N] /\ self w' = self w /\ logged w w' [EvDrop (kid k)]
+          end)
+       (fun _ : world key vobj cstate => False) w.
+Proof. exact chain9_spec. Qed.
+Print Assumptions C11_chain9_spec.
+
+(* chain 10: OccupiedEntry::remove_entry() (the STORED pair handed out, nothing
+   but the supplied key destroyed) / VacantEntry::into_key() *)
+Theorem C11_chain10_spec :
+  forall (debug : bool) (sc : script), honest sc ->
+  forall (k : key) (v : vobj) (w : world key vobj cstate),
+    WF (self w) ->
+    wp (entry_chain debug sc k 10 v)
+       (fun (r : list N) (w' : world key vobj cstate) =>
+          WF (self w') /\ cap (self w') = cap (self w) /\
+          match find_idx kcls (kcls k) (Spec.elems (self w)) with
+          | Some j =>
+              exists (k0 : key) (v0 : vobj),
+                nth_error (Spec.elems (self w)) j = Some (k0, v0) /\
+                r = 0%N :: r_pair (k0, v0) /\
+                Spec.elems (self w') = swap_remove (Spec.elems (self w)) j /\
+                logged w w' [EvDrop (kid k)]
+          | None => r = 1%N :: r_key k /\ self w' = self w /\ log w' = log w
+          end)
+       (fun _ : world key vobj cstate => False) w.
+Proof. exact chain10_spec. Qed.
+Print Assumptions C11_chain10_spec.
+
+(* chain 11: OccupiedEntry::into_mut() and a write through it /
+   VacantEntry::insert(v) *)
+Theorem C11_chain11_spec :
+  forall (debug : bool) (sc : script), honest sc ->
+  forall (k : key) (v : vobj) (w : world key vobj cstate),
+    WF (self w) ->
+    wp (entry_chain debug sc k 11 v)
+       (fun (r : list N) (w' : world key vobj cstate) =>
+          WF (self w') /\ cap (self w') = cap (self w) /\
+          match find_idx kcls (kcls k) (Spec.elems (self w)) with
+          | Some j =>
+              exists (k0 : key) (v0 : vobj),
+                nth_error (Spec.elems (self w)) j = Some (k0, v0) /\
+                r = [0%N; nn j] ++ r_val v0 /\
+                Spec.elems (self w') =
+                  upd (Spec.elems (self w)) j (k0, {| vid := vid v0; vdat := vdat v |}) /\
+                logged w w' [EvDrop (kid k)]
+          | None =>
+              r = [1%N; nn (len (self w))] ++ r_val v /\
+              Spec.elems (self w') = Spec.elems (self w) ++ [(k, v)] /\ log w' = log w /\
+              len (self w) < cap (self w)
+          end)
+       (fun w' : world key vobj cstate =>
+          self w' = self w /\ logged w w' [EvDrop (kid k); EvDrop (vid v)] /\
+          find_idx kcls (kcls k) (Spec.elems (self w)) = None /\ len (self w) = cap (self w)) w.
+Proof. exact chain11_spec. Qed.
+Print Assumptions C11_chain11_spec.
+
+(* there are no other chains: every chain number >= 11 is chain 11 *)
+Theorem C11_entry_chain_ge11 :
+  forall (debug : bool) (sc : script) (k : key) (chain : N) (v : vobj),
+    (11 <= chain)%N -> entry_chain debug sc k chain v = entry_chain debug sc k 11 v.
+Proof. exact entry_chain_ge11. Qed.
+Print Assumptions C11_entry_chain_ge11.
+
+(* ---------------------------------------------------------------------- *)
+(* Finding 6.  non-vacuity: concrete runs on the 3-entry map m3 = [(K1c5,   *)
+(* V2d7); (K3c6, V4d8); (K5c7, V6d9)] (full: len = cap = 3) and on m = m3    *)
+(* with one spare slot; supplied key object id 90, supplied value id 91.     *)
+(* ---------------------------------------------------------------------- *)
+
+(* the hypotheses of the theorems above on these states *)
+Example C11_example_hyps2 :
+  let sc0 := {| sc_adv := false; sc_seed := 0; sc_fk := 0; sc_fa := 0 |} in
+  let m : map key vobj := {| len := 3; slots := slots m3 ++ [None] |} in
+  honest sc0 /\ WF (self (w_of m3)) /\ Uniq kcls (Spec.elems m3) /\ 1 < len m3 /\
+  WF m /\ len m < cap m /\ len m3 = cap m3 /\
+  find_idx kcls (kcls (k_ 90 6)) (Spec.elems m3) = Some 1 /\
+  find_idx kcls (kcls (k_ 90 7)) (Spec.elems m3) = Some 2 /\
+  find_idx kcls (kcls (k_ 90 9)) (Spec.elems m3) = None /\
+  mk_val sc0 (v_ 91 0) (scan_cb (env_map sc0) (k_ 90 9) (Spec.elems m3) cs0)
+    = (Some (v_ 91 0), {| n_eq := 3; n_clone := 0; n_call := 1; next_id := 100000 |}) /\
+  Forall2 (fun (f : @modf_t vobj cstate) (g : vobj -> vobj) =>
+             forall (s : cstate) (v : vobj), fst (f s v) = (false, g v))
+          [modf_add sc0; modf_add sc0]
+          [fun v => v_ (vid v) (vdat v + 100); fun v => v_ (vid v) (vdat v + 100)].
+Proof.
+  intros sc0 m. assert (Hh : honest sc0) by (split; reflexivity).
+  split; [exact Hh|]. split; [exact m3_WF|].
+  split; [vm_compute; repeat constructor; cbn; intuition discriminate|].
+  split; [cbn; lia|].
+  split.
+  { split; [cbn; lia|]. intros i Hi. cbn [len m] in Hi.
+    destruct i as [|[|[|i]]]; try lia; eexists; reflexivity. }
+  split; [cbn; lia|]. split; [reflexivity|]. split; [reflexivity|]. split; [reflexivity|].
+  split; [reflexivity|]. split; [reflexivity|].
+  repeat constructor; intros s v; apply (modf_add_pure sc0 Hh).
+Qed.
+
+(* and_modify(|x| x.dat += 100) on the MIDDLE slot (class 6), on the LAST slot
+   (class 7), on an absent key; twice in a chain followed by or_insert *)
+Example C11_example_and_modify :
+  let sc0 := {| sc_adv := false; sc_seed := 0; sc_fk := 0; sc_fa := 0 |} in
+  let E := env_map sc0 in
+  match (e <- entry_of E (k_ 90 6) ;; and_modify e (modf_add sc0)) (w_of m3) with
+  | Ok e' w' => e' = Occupied 1 /\ log w' = [EvDrop 90; EvCall 3] /\
+                Spec.elems (self w') = [(k_ 1 5, v_ 2 7); (k_ 3 6, v_ 4 108); (k_ 5 7, v_ 6 9)]
+  | _ => False
+  end /\
+  match (e <- entry_of E (k_ 90 7) ;; and_modify e (modf_add sc0)) (w_of m3) with
+  | Ok e' w' => e' = Occupied 2 /\ log w' = [EvDrop 90; EvCall 3] /\
+                Spec.elems (self w') = [(k_ 1 5, v_ 2 7); (k_ 3 6, v_ 4 8); (k_ 5 7, v_ 6 109)]
+  | _ => False
+  end /\
+  match (e <- entry_of E (k_ 90 9) ;; and_modify e (modf_add sc0)) (w_of m3) with
+  | Ok e' w' => e' = Vacant (k_ 90 9) /\ log w' = [] /\ self w' = m3
+  | _ => False
+  end /\
+  match (e <- entry_of E (k_ 90 6) ;; e' <- and_modify_all e [modf_add sc0; modf_add sc0] ;;
+         or_insert E true e' (v_ 91 0)) (w_of m3) with
+  | Ok i w' => i = 1 /\ log w' = [EvDrop 90; EvCall 3; EvCall 3; EvDrop 91] /\
+               Spec.elems (self w') = [(k_ 1 5, v_ 2 7); (k_ 3 6, v_ 4 208); (k_ 5 7, v_ 6 9)]
+  | _ => False
+  end /\
+  (* a closure that writes 55 and then panics: the new value stays *)
+  match (e <- entry_of E (k_ 90 6) ;;
+         and_modify e (fun (s : cstate) (x : vobj) => ((true, v_ (vid x) 55), s))) (w_of m3) with
+  | Panic w' => log w' = [EvDrop 90; EvCall 3] /\
+                Spec.elems (self w') = [(k_ 1 5, v_ 2 7); (k_ 3 6, v_ 4 55); (k_ 5 7, v_ 6 9)]
+  | _ => False
+  end.
+Proof. vm_compute. repeat split; reflexivity. Qed.
+
+(* or_insert_with(|| V91): middle slot (not called), spare slot (called once,
+   its value stored at slot 3), full map (called once, then K90 and V91 destroyed) *)
+Example C11_example_or_insert_with :
+  let sc0 := {| sc_adv := false; sc_seed := 0; sc_fk := 0; sc_fa := 0 |} in
+  let E := env_map sc0 in
+  let m : map key vobj := {| len := 3; slots := slots m3 ++ [None] |} in
+  match (e <- entry_of E (k_ 90 6) ;; or_insert_with E true e (mk_val sc0 (v_ 91 0))) (w_of m3) with
+  | Ok i w' => i = 1 /\ self w' = m3 /\ log w' = [EvDrop 90]
+  | _ => False
+  end /\
+  match (e <- entry_of E (k_ 90 7) ;; or_insert_with E true e (mk_val sc0 (v_ 91 0))) (w_of m3) with
+  | Ok i w' => i = 2 /\ self w' = m3 /\ log w' = [EvDrop 90]
+  | _ => False
+  end /\
+  match (e <- entry_of E (k_ 90 9) ;; or_insert_with E true e (mk_val sc0 (v_ 91 0))) (w_of m) with
+  | Ok i w' => i = 3 /\ log w' = [EvCall 2] /\
+               Spec.elems (self w') = Spec.elems m3 ++ [(k_ 90 9, v_ 91 0)]
+  | _ => False
+  end /\
+  match (e <- entry_of E (k_ 90 9) ;; or_insert_with E true e (mk_val sc0 (v_ 91 0))) (w_of m3) with
+  | Panic w' => self w' = m3 /\ log w' = [EvCall 2; EvDrop 90; EvDrop 91]
+  | _ => False
+  end /\
+  (* a closure that panics (absent key, spare slot): called once, nothing inserted,
+     the supplied key K90 destroyed exactly once by the unwinding *)
+  match (e <- entry_of E (k_ 90 9) ;; or_insert_with E true e (fun s : cstate => (None, s))) (w_of m) with
+  | Panic w' => self w' = m /\ log w' = [EvCall 2; EvDrop 90]
+  | _ => False
+  end /\
+  (* or_default on the spare slot: a fresh object (id 100000 = next_id) with payload 0 *)
+  match (e <- entry_of E (k_ 90 9) ;; or_insert_with E true e (mk_default sc0)) (w_of m) with
+  | Ok i w' => i = 3 /\ log w' = [EvCall 2] /\
+               Spec.elems (self w') = Spec.elems m3 ++ [(k_ 90 9, v_ 100000 0)]
+  | _ => False
+  end.
+Proof. vm_compute. repeat split; reflexivity. Qed.
+
+(* occ_insert / occ_remove / occ_remove_entry on the middle and on the last
+   slot; vac_insert with a spare slot and on the full map *)
+Example C11_example_occ_vac :
+  let sc0 := {| sc_adv := false; sc_seed := 0; sc_fk := 0; sc_fa := 0 |} in
+  let E := env_map sc0 in
+  let m : map key vobj := {| len := 3; slots := slots m3 ++ [None] |} in
+  match occ_insert 1 (v_ 91 0) (w_of m3) with
+  | Ok r w' => r = v_ 4 8 /\ log w' = [] /\
+               Spec.elems (self w') = [(k_ 1 5, v_ 2 7); (k_ 3 6, v_ 91 0); (k_ 5 7, v_ 6 9)]
+  | _ => False
+  end /\
+  match occ_insert 2 (v_ 91 0) (w_of m3) with
+  | Ok r w' => r = v_ 6 9 /\ log w' = [] /\
+               Spec.elems (self w') = [(k_ 1 5, v_ 2 7); (k_ 3 6, v_ 4 8); (k_ 5 7, v_ 91 0)]
+  | _ => False
+  end /\
+  (* middle slot removed: the last pair moves into it; the other two pairs survive *)
+  match occ_remove E true 1 (w_of m3) with
+  | Ok r w' => r = v_ 4 8 /\ log w' = [EvDrop 3] /\
+               Spec.elems (self w') = [(k_ 1 5, v_ 2 7); (k_ 5 7, v_ 6 9)]
+  | _ => False
+  end /\
+  match occ_remove E true 2 (w_of m3) with
+  | Ok r w' => r = v_ 6 9 /\ log w' = [EvDrop 5] /\
+               Spec.elems (self w') = [(k_ 1 5, v_ 2 7); (k_ 3 6, v_ 4 8)]
+  | _ => False
+  end /\
+  match occ_remove_entry true 0 (w_of m3) with
+  | Ok r w' => r = (k_ 1 5, v_ 2 7) /\ log w' = [] /\
+               Spec.elems (self w') = [(k_ 5 7, v_ 6 9); (k_ 3 6, v_ 4 8)]
+  | _ => False
+  end /\
+  match vac_insert E true (k_ 90 9) (v_ 91 0) (w_of m) with
+  | Ok i w' => i = 3 /\ log w' = [] /\ Spec.elems (self w') = Spec.elems m3 ++ [(k_ 90 9, v_ 91 0)]
+  | _ => False
+  end /\
+  match vac_insert E true (k_ 90 9) (v_ 91 0) (w_of m3) with
+  | Panic w' => self w' = m3 /\ log w' = [EvDrop 90; EvDrop 91]
+  | _ => False
+  end.
+Proof. vm_compute. repeat split; reflexivity. Qed.
+
+(* the interpreter's chains on m3: Entry::key on a present key renders the
+   STORED object K3c6 and destroys the supplied K90; on an absent key renders
+   the supplied K90c9 and destroys it once (chain 5) / keeps it (chain 10);
+   chain 9 removes the middle entry *)
+Example C11_example_chains :
+  let sc0 := {| sc_adv := false; sc_seed := 0; sc_fk := 0; sc_fa := 0 |} in
+  match entry_chain true sc0 (k_ 90 6) 5 (v_ 91 0) (w_of m3) with
+  | Ok r w' => r = [0; 1; 3; 6]%N /\ self w' = m3 /\ log w' = [EvDrop 90]
+  | _ => False
+  end /\
+  match entry_chain true sc0 (k_ 90 9) 5 (v_ 91 0) (w_of m3) with
+  | Ok r w' => r = [1; 90; 9]%N /\ self w' = m3 /\ log w' = [EvDrop 90]
+  | _ => False
+  end /\
+  match entry_chain true sc0 (k_ 90 9) 6 (v_ 91 0) (w_of m3) with
+  | Ok r w' => r = [1; 90; 9]%N /\ self w' = m3 /\ log w' = [EvDrop 90]
+  | _ => False
+  end /\
+  match entry_chain true sc0 (k_ 90 9) 10 (v_ 91 0) (w_of m3) with
+  | Ok r w' => r = [1; 90; 9]%N /\ self w' = m3 /\ log w' = []
+  | _ => False
+  end /\
+  match entry_chain true sc0 (k_ 90 9) 7 (v_ 91 0) (w_of m3) with
+  | Ok r w' => r = [1; 90; 9]%N /\ self w' = m3 /\ log w' = []
+  | _ => False
+  end /\
+  match entry_chain true sc0 (k_ 90 6) 9 (v_ 91 0) (w_of m3) with
+  | Ok r w' => r = [0; 4; 8]%N /\ log w' = [EvDrop 90; EvDrop 3] /\
+               Spec.elems (self w') = [(k_ 1 5, v_ 2 7); (k_ 5 7, v_ 6 9)]
+  | _ => False
+  end /\
+  match entry_chain true sc0 (k_ 90 6) 10 (v_ 91 0) (w_of m3) with
+  | Ok r w' => r = [0; 3; 6; 4; 8]%N /\ log w' = [EvDrop 90] /\
+               Spec.elems (self w') = [(k_ 1 5, v_ 2 7); (k_ 5 7, v_ 6 9)]
   | _ => False
   end.
 Proof. vm_compute. repeat split; reflexivity. Qed.
